@@ -264,7 +264,7 @@ def h_tucker(E, cfg):
         backend.configure(svd="givens")
         backend.patch(_tk, "svd_interface", stub_orthonormal_svd)
     X = E.real("X", shp)
-    E.assume(E.Or([E.Not(E.eq(x, 0)) for x in np.asarray(X, dtype=object).ravel()]))
+    E.assume(E.Or([E.nonzero(x) for x in np.asarray(X, dtype=object).ravel()]))
     mask = None
     kw = dict(tol=0)
     if opt == "mask":
@@ -323,7 +323,7 @@ def h_parafac2(E, cfg):
         backend.patch(_p2t, "_validate_parafac2_tensor", validate_stub)
     slices = [E.real(f"X{i}", (n, J)) for i, n in enumerate(rows)]
     allx = [x for sl in slices for x in np.asarray(sl, dtype=object).ravel()]
-    E.assume(E.Or([E.Not(E.eq(x, 0)) for x in allx]))
+    E.assume(E.Or([E.nonzero(x) for x in allx]))
     I = len(rows)
     kw = dict(return_errors=True, n_iter_parafac=1, linesearch=(opt == "linesearch"), tol=cfg.get("tol", 1e-30))
     if opt == "normalize":
@@ -481,7 +481,7 @@ def h_parafac(E, cfg):
         backend.patch(_cp, "cp_normalize", stub_cp_normalize)
         backend.patch(_cp, "svd_interface", stub_svd_interface)
     X = E.real("X", shp)
-    E.assume(E.Or([E.Not(E.eq(x, 0)) for x in np.asarray(X, dtype=object).ravel()]))
+    E.assume(E.Or([E.nonzero(x) for x in np.asarray(X, dtype=object).ravel()]))
     kw = dict(tol=0, return_errors=True)
     mask = None
     if opt in ("plain", "normalize", "l2", "fixed0", "orthogonalise", "mask", "mask_normalize", "sparsity", "linesearch", "linesearch_normalize", "symbolic_tol", "symbolic_tol_normalize"):
